@@ -95,6 +95,7 @@ impl Default for Example {
 ///
 /// See source code for the full example
 #[derive(Debug, Clone, Copy)]
+#[cfg_attr(feature = "serde", derive(Serialize, Deserialize))]
 pub struct ExampleInstance {
 	cfg: Example,
 
